@@ -40,6 +40,14 @@ def compositions(n):
             yield (first,) + rest
 
 
+def with_zero_batches(comp):
+    """the composition itself and every way of inserting one DoGlobalIteration(0) call into it"""
+    comp = tuple(comp)
+    yield comp
+    for i in range(len(comp) + 1):
+        yield comp[:i] + (0,) + comp[i:]
+
+
 def make_listener_class(mask, events):
     d = {}
     for b, nm in enumerate(CALLBACKS):
@@ -187,7 +195,8 @@ def run_with(N, names, refine=False):
     events = []
     try:
         with contextlib.redirect_stdout(buf):
-            s = Solver(p, SolverParameters(eps=0.02 if N == 1 else 0.1, r=2.5, itersLimit=25 if N < 3 else 20))
+            s = Solver(p, SolverParameters(eps=0.02 if N == 1 else 0.1, r=2.5, itersLimit=(25 if N < 3 else 20) * (8 if refine else 1),
+                                           refineSolution=refine))
             for nm in names:
                 if nm == "rec":
                     s.AddListener(make_listener_class(7, events)())
@@ -246,10 +255,10 @@ def console_report_ok(res):
 
 
 def shipped_case(task):
-    N, names = task["N"], task["names"]
-    ref = run_with(N, [])
-    got = run_with(N, names)
-    ctx = f"N={N} listeners {names}"
+    N, names, refine = task["N"], task["names"], bool(task.get("refine"))
+    ref = run_with(N, [], refine)
+    got = run_with(N, names, refine)
+    ctx = f"N={N} listeners {names}" + (" refineSolution=True" if refine else "")
     if ref.get("error"):
         return [f"N={N} listener-free run failed: {ref['error']}"]
     if got.get("error"):
@@ -274,11 +283,14 @@ def run(ctx):
     for N in (1, 2, 3):
         for mask in range(16):
             for n in range(0, nmax + 1):
-                for comp in compositions(n):
-                    for extra in range(0, 4):
-                        if n == 0 and extra == 0:
-                            continue
-                        tasks.append(dict(N=N, mask=mask, comp=list(comp), extra=extra))
+                for comp0 in compositions(n):
+                    for comp in with_zero_batches(comp0):
+                        for extra in range(0, 4):
+                            if n == 0 and extra == 0:
+                                continue
+                            if 0 in comp and extra not in (0, 2):
+                                continue
+                            tasks.append(dict(N=N, mask=mask, comp=list(comp), extra=extra))
     out = pmap(contract_case, tasks, chunksize=16)
     for t, msgs in zip(tasks, out):
         for m in msgs:
@@ -298,6 +310,10 @@ def run(ctx):
     for N in (1, 2, 3):
         allN = [n for n in names if specs[n][0] == N]
         stasks.append(dict(N=N, names=["rec"] + allN))
+        # with the local refinement switched on the final report must still be the returned Solution
+        for mode in ("full", "custom", "result"):
+            stasks.append(dict(N=N, names=[f"console-{mode}-N{N}"], refine=True))
+        stasks.append(dict(N=N, names=["rec"] + ([n for n in allN if not n.startswith("console")][:1] if th else []), refine=True))
     sout = pmap(shipped_case, stasks)
     for t, msgs in zip(stasks, sout):
         for m in msgs:
